@@ -546,6 +546,9 @@ class DiHypergraph:
             head = members[1]
         else:
             raise XGIError("Directed edge must be a list or tuple!")
+        tail, head = list(tail), list(head)
+        if None in set(tail) | set(head):
+            raise XGIError("None cannot be a node")
 
         uid = next(self._edge_uid) if idx is None else idx
 
